@@ -11,7 +11,7 @@ import coqlit as L
 ID = "C10"
 COQ_PROPERTY_FILE = "Properties/C10.v"
 COQ_DEPS = ["Common/ListX.v", "Common/ObsHash.v", "Generated/Tables.v", "Model/ContGeom.v", "Model/ContLegacy.v", "Model/ContExp.v",
-            "Proofs/ContGeomProofs.v", "Proofs/ContLegacyProofs.v", "Proofs/ContExpProofs.v"]
+            "Proofs/ContGeomProofs.v", "Proofs/ContLegacyProofs.v", "Proofs/ContExpProofs.v", "Proofs/ContBridge.v"]
 COQ_IMPORTS = "From Mesa Require Import Model.ContGeom Model.ContLegacy Model.ContExp."
 COQ_CASE_TYPE = "case"
 COQ_RUN = "run_case"
@@ -28,7 +28,13 @@ SOURCE_FUNCS = (
     + [(_AGT, "ContinuousSpaceAgent")]          # position getter/setter, __init__, remove, the two neighbour forms
 )
 TABLE_CONSTRUCTS = ["cont_legacy_oob", "cont_exp_in_bounds", "cont_exp_growth", "cont_exp_kth", "cont_radius_ops",
-                    "cont_wrap", "cont_exp_remove"]
+                    "cont_wrap", "cont_exp_remove",
+                    # code-level T1 (harness/tables/continuous_code.py): translated functions + statement skeletons
+                    "cs_legacy_oob_code", "cs_legacy_torus_adj_code", "cs_legacy_distance_code", "cs_legacy_heading_code",
+                    "cs_legacy_nbr_delta_code", "cs_legacy_nbr_dist2_code", "cs_legacy_nbr_select_code", "cs_legacy_skeleton",
+                    "cs_exp_in_bounds_code", "cs_exp_torus_correct_code", "cs_exp_growth_code", "cs_exp_reindex_code",
+                    "cs_exp_compact_code", "cs_exp_diff_code", "cs_exp_dist_code", "cs_exp_kth_code", "cs_exp_radius_code",
+                    "cs_agent_setter_code", "cs_exp_skeleton"]
 ENUM_ALWAYS = False
 RULE = ("histories = one continuous space (legacy: 2-D; experimental: 2-D/3-D, initial capacity in {0,1,2,3,10,100}), bounds "
         "with negative / non-unit origins, torus on/off, then <= 30 operations: place/add, move (in bounds, wrapping, "
